@@ -69,6 +69,28 @@ def run(ctx, facts):
             continue
         for (w, f, i) in writes_to_self(fn, "lastidx"):
             ctx.violation("COUNTER", FY + name, "cursor written", hirq.loc(w), "%s writes the cursor" % name)
+    # IDXRANGE
+    ctx.rule("IDXRANGE", "the drawn index is lastidx + trunc(xsi * (m - lastidx)) with xsi a Uniform[0,1) f64 sample, the truncation applied to "
+                         "the product alone and the offset added in integer arithmetic (or an integer range sample lastidx..m). Lemma: for x a "
+                         "multiple of 2^-53 in [0,1) and an integer n < 2^53 the rounded product x*n is < n, so the index is in [lastidx, m-1]; "
+                         "adding the offset in floating point loses this (the sum can round up to m)")
+    idx_defs = [nf.nf(e, casts=False) for e in def_exprs(nx, "idx")]
+    xsi_defs = [nf.nf(e, casts=True) for e in def_exprs(nx, "xsi")]
+    good_forms = {"(self.lastidx + ((((self.m - self.lastidx) as f64) * xsi) as usize))", "(self.lastidx + ((xsi * ((self.m - self.lastidx) as f64)) as usize))",
+                  "((((self.m - self.lastidx) as f64) * xsi) as usize + self.lastidx)"}
+    # nf sorts commutative operands; compute the normal form of the accepted shapes by normalising spaces only
+    canon = lambda s_: s_.replace(" ", "")
+    okidx = len(idx_defs) == 1 and (canon(idx_defs[0]) in {canon(g) for g in good_forms} or
+                                    canon(idx_defs[0]) in {canon("(self.lastidx + ((((self.m - self.lastidx) as f64) * xsi) as usize))"), canon("(((((self.m - self.lastidx) as f64) * xsi) as usize) + self.lastidx)")})
+    ctor = facts.fn(FY + "new")
+    unif = [nf.nf(f["e"], True) for x in hirq.walk(ctor["hir"]) if x["k"] == "Struct" for f in x["fields"] if f["name"] == "unif_01"]
+    okx = xsi_defs == ["self.unif_01.sample(rng)"] and unif in (["rand_distr::Uniform::<X>::new(0.0, 1.0).unwrap()"], ["rand::distr::Uniform::<X>::new(0.0, 1.0).unwrap()"])
+    if okidx and okx:
+        ctx.ok("IDXRANGE", FY + "next", "idx = lastidx + trunc(xsi * (m - lastidx)), xsi ~ Uniform[0,1)", hirq.loc(nx))
+    else:
+        ctx.violation("IDXRANGE", FY + "next", "index formula", hirq.loc(nx),
+                      "the drawn index is `%s` with xsi = %s (unif_01 = %s): not the shape for which idx in [lastidx, m-1] is guaranteed — e.g. adding lastidx in floating point lets the sum round up to m (out-of-bounds for a generator output at the top of the unit interval)"
+                      % (idx_defs, xsi_defs, unif))
     # DRAWSHAPE
     swaps = [m for m in self_method_calls(nx, "v", ["swap"])]
     tail = nf.strip(body["expr"]) if "expr" in body else None
